@@ -17,6 +17,14 @@ use std::time::Instant;
 
 pub const WORKERS: usize = 16;
 
+thread_local! {
+    static SHRINKING: Cell<bool> = const { Cell::new(false) };
+}
+/// true while proptest is shrinking a failure on this thread (oracles with a time budget use a smaller one)
+pub fn shrinking() -> bool {
+    SHRINKING.with(|s| s.get())
+}
+
 #[derive(Debug, Clone, Copy, PartialEq, Eq)]
 pub enum Tier {
     Quick,
@@ -104,6 +112,7 @@ pub struct Run {
     samples: Mutex<Vec<Value>>,
     sections: Mutex<Vec<SectionReport>>,
     excluded_known: AtomicU64,
+    pub shrink_iters: std::sync::atomic::AtomicU32,
     subcases: AtomicU64,
     enum_nontrivial: AtomicU64,
     known: Vec<Known>,
@@ -146,6 +155,7 @@ impl Run {
             samples: Mutex::new(vec![]),
             sections: Mutex::new(vec![]),
             excluded_known: AtomicU64::new(0),
+            shrink_iters: std::sync::atomic::AtomicU32::new(4_000),
             subcases: AtomicU64::new(0),
             enum_nontrivial: AtomicU64::new(0),
             known,
@@ -203,7 +213,8 @@ impl Run {
             "violation": v.msg, "seed": self.seed, "tier": self.tier.name(), "case": case,
         });
         let text = serde_json::to_string_pretty(&body).unwrap();
-        let path = dir.join(format!("{}-{}-{:016x}.json", self.prop, section, hash_str(&text)));
+        let safe: String = section.chars().map(|c| if c.is_ascii_alphanumeric() || c == '-' || c == '_' { c } else { '-' }).collect();
+        let path = dir.join(format!("{}-{}-{:016x}.json", self.prop, safe, hash_str(&text)));
         let _ = std::fs::write(&path, text);
         let p = path.to_string_lossy().to_string();
         self.violations.lock().unwrap().push((p.clone(), v.msg.clone()));
@@ -241,7 +252,7 @@ impl Run {
                     cfg.cases = per_worker as u32;
                     cfg.failure_persistence = None;
                     cfg.rng_seed = RngSeed::Fixed(wseed);
-                    cfg.max_shrink_iters = 4_000;
+                    cfg.max_shrink_iters = self.shrink_iters.load(Ordering::Relaxed);
                     cfg.max_global_rejects = 1_000_000;
                     cfg.verbose = 0;
                     let mut runner = TestRunner::new(cfg);
@@ -254,6 +265,7 @@ impl Run {
                     let res = runner.run(&strat(), |case: C| {
                         if failed.get() {
                             // shrinking: evaluate only, no counting
+                            SHRINKING.with(|s| s.set(true));
                             return match check(&case) {
                                 Ok(_) => Ok(()),
                                 Err(v) => {
@@ -296,6 +308,7 @@ impl Run {
                             }
                         }
                     });
+                    SHRINKING.with(|s| s.set(false));
                     sec_evals.fetch_add(evals.get(), Ordering::Relaxed);
                     self.evaluations.fetch_add(evals.get(), Ordering::Relaxed);
                     self.subcases.fetch_add(subs.get(), Ordering::Relaxed);
@@ -362,7 +375,7 @@ impl Run {
                     let mut local_classes: BTreeMap<&'static str, u64> = BTreeMap::new();
                     loop {
                         let b = next.fetch_add(1, Ordering::Relaxed);
-                        if b >= blocks {
+                        if b >= blocks || !fails.lock().unwrap().is_empty() {
                             break;
                         }
                         let rep = f(b);
